@@ -44,6 +44,67 @@ def observe(lab, c):
             "acceptor_established": bool(a is not None and (a.is_established or a.is_released)), "user_id_calls": lab.user_id_calls}
 
 
+def handler_bindings(ctx: Ctx):
+    """Handlers.tla: the binding rules the acceptance-policy slot (and every other handler slot) follows.  TLC checks the
+    rules' consequences exhaustively for short histories and simulates longer ones; those are run on a real server and its
+    real associations, and Trace_Handlers compares what get_handlers() / a C-ECHO show with Apply() step by step.
+    A difference is reported as drift of the binding model (C13's own predicate is judged on the EVT_USER_ID histories)."""
+    import os
+    from handlers_lab import HandlersLab
+    from tlc import read_sim_traces
+
+    thorough = ctx.tier == "thorough"
+    r = must_ok(run_tlc("Handlers", "Handlers.cfg" if thorough else "Handlers_quick.cfg", workdir=ctx.work, workers=8, timeout=1500))
+    ctx.add_tlc(r)
+    if r.violated:
+        ctx.violation({"where": "model", "invariant": r.violated}, f"Handlers.tla violates {r.violated}", r.trace)
+        return
+    sim = os.path.join(ctx.work, "hsim")
+    os.makedirs(sim, exist_ok=True)
+    n = 1200 if thorough else 160
+    must_ok(run_tlc("Handlers", "Handlers_sim.cfg", workdir=ctx.work, workers=1, simulate=f"file={sim}/tr,num={n}", depth=9, seed=ctx.seed + 131))
+    hists = []
+    for beh in read_sim_traces(os.path.join(sim, "tr")):
+        ops = [dict(o) for o in beh[-1][1]["hist"]]
+        if ops:
+            hists.append(ops)
+    if len(hists) < n // 2:
+        raise MachineryError(f"only {len(hists)} simulated binding histories read")
+    nthreads = 8
+    outs = [[] for _ in range(nthreads)]
+    errs = []
+
+    def worker(k):
+        lab = HandlersLab()
+        try:
+            for ops in hists[k::nthreads]:
+                try:
+                    outs[k].append({"ops": ops, "obs": [lab.apply(op) for op in ops]})
+                finally:
+                    lab.reset()
+        except Exception as e:  # noqa: BLE001
+            errs.append(f"{type(e).__name__}: {e}")
+        finally:
+            lab.close()
+
+    ts = [threading.Thread(target=worker, args=(k,)) for k in range(nthreads)]
+    [t.start() for t in ts]
+    [t.join() for t in ts]
+    if errs:
+        raise MachineryError("handlers lab: " + errs[0])
+    obs = [o for out in outs for o in out]
+    for k, o in enumerate(obs):
+        o["id"] = k + 1
+    vs = validate_traces(ctx, "Trace_Handlers", obs, name="handlers", timeout=1800)
+    for o in obs:
+        v, step = vs[o["id"]][0], int(vs[o["id"]][1])
+        ctx.traces += 1
+        ctx.case(("bindings", tuple((p["k"], p["e"], p["h"], p["a"], p["x"]) for p in o["ops"])), nontrivial=any(p["k"] == "echo" for p in o["ops"]))
+        if v != "ok":
+            ctx.drifted(f"binding model {v} at step {step} of {[(p['k'], p['e'], p['h'], p['a'], p['x']) for p in o['ops'][:step]]}: real objects show {o['obs'][step - 1]}")
+    ctx.cov["binding_histories"] = len(obs)
+
+
 def run(ctx: Ctx) -> int:
     from neg_lab import NegLab
 
@@ -99,6 +160,7 @@ def run(ctx: Ctx) -> int:
                           f"DIMSE handler calls={o['calls']} user-id handler calls={o['user_id_calls']}", c)
     ctx.sample(obs[0])
     ctx.sample(obs[len(obs) // 2])
+    handler_bindings(ctx)
     ctx.assume("AE titles = significant core + leading/trailing spaces; reject codes compared: (source, reason) = (1,3) calling / (1,7) called AE title not recognised; identity rejections may carry any codes",
                "after the A-ASSOCIATE answer the raw requestor always sends a C-ECHO request on context 1")
     return ctx.finish(rule="every policy case of Policy.tla (7 calling-title variants x 5 required lists x 4 called titles x 2 own titles x require_called x 5 identity verdicts; half of them in quick) "
